@@ -46,6 +46,8 @@ struct AsMapS<T>(T);
 struct AndS<L, R>(L, R);
 struct SpanS<T>(T);
 struct MetricS<T>(T);
+struct SpanWithS<T>(T);
+struct MetricWithS<T>(T);
 
 impl Shape for EmptyS {
     type Out = emit::Empty;
@@ -227,6 +229,24 @@ impl<T: Shape> Shape for MetricS<T> {
         metric_view(T::build(&t["t"]))
     }
 }
+impl<T: Shape> Shape for SpanWithS<T> {
+    type Out = &'static emit::span::Span<'static, T::Out>;
+    fn name() -> String {
+        format!("span_with({})", T::name())
+    }
+    fn build(t: &Value) -> Self::Out {
+        span_view_with(T::build(&t["t"]))
+    }
+}
+impl<T: Shape> Shape for MetricWithS<T> {
+    type Out = &'static emit::metric::Metric<'static, T::Out>;
+    fn name() -> String {
+        format!("metric_with({})", T::name())
+    }
+    fn build(t: &Value) -> Self::Out {
+        metric_view_with(T::build(&t["t"]))
+    }
+}
 impl<L: Shape, R: Shape> Shape for AndS<L, R> {
     type Out = And<L::Out, R::Out>;
     fn name() -> String {
@@ -243,7 +263,9 @@ fn shape_of(t: &Value) -> String {
     match op {
         "arr" => format!("arr{}", t["kvs"].as_array().unwrap().len()),
         "and" => format!("and({},{})", shape_of(&t["l"]), shape_of(&t["r"])),
-        "opt" | "ref" | "box" | "arc" | "erased" | "dedup" | "asmap" | "span" | "metric" => format!("{op}({})", shape_of(&t["t"])),
+        "opt" | "ref" | "box" | "arc" | "erased" | "dedup" | "asmap" | "span" | "metric" | "span_with" | "metric_with" => {
+            format!("{op}({})", shape_of(&t["t"]))
+        }
         _ => op.to_string(),
     }
 }
@@ -367,6 +389,11 @@ fn registry() -> HashMap<String, Runner> {
     few_leaves!(d2_and_l, (m));
     few_leaves!(d2_unary2, (m));
     all_leaves!(reg_views, (m));
+    reg::<SpanWithS<PairS>>(m);
+    reg::<SpanWithS<ArrS<3>>>(m);
+    reg::<MetricWithS<PairS>>(m);
+    reg::<MetricWithS<ArrS<3>>>(m);
+    reg::<DedupS<MetricWithS<ArrS<3>>>>(m);
     map
 }
 
@@ -396,7 +423,7 @@ fn main() {
         let keys = keys_of(case);
         let ordered = !has_unordered(case);
         let shape = shape_of(tree);
-        for w in shape.split(|c: char| !c.is_alphanumeric()).filter(|w| !w.is_empty()) {
+        for w in shape.split(|c: char| !(c.is_alphanumeric() || c == '_')).filter(|w| !w.is_empty()) {
             *ops_seen.entry(w.to_string()).or_default() += 1;
         }
         // type-erased, dynamic
